@@ -62,41 +62,44 @@ Section Honoured.
 Variable lookup : lookup_fn.
 Hypothesis lookup_len : forall syms p, In p (lookup syms) -> length (fst p) = length syms.
 Hypothesis lookup_nil : lookup [] = [].
+Variable spell : N -> list N.
 Variable c : composition.
 Hypothesis Wc : wf_comp c.
 Hypothesis sel_len : Forall (fun s => length (itext s) = ie s - ib s) (selections c).
 Hypothesis sel_syl : forall sel k, In sel (selections c) -> ib sel <= k < ie sel ->
   exists s, nth_error (symbols c) k = Some (SymSyl s).
+(* every syllable of the buffer has a word under the engine's lookup strategy (see C03.v) *)
+Hypothesis has_word : forall s, In (SymSyl s) (symbols c) -> lookup [SymSyl s] <> [].
 
 (* the displayed (= committed, C02) text at the range of every recorded choice is that choice,
    for EVERY path through the graph, i.e. every alternative of the Chewing / Fuzzy engines *)
 Theorem C04_choice_is_displayed : forall p sel,
-  path_ok (find_intervals lookup c) 0 (clen c) p = true -> In sel (selections c) ->
+  path_ok (find_intervals spell lookup c) 0 (clen c) p = true -> In sel (selections c) ->
   firstn (ie sel - ib sel) (skipn (ib sel) (display_of (glue_path c (map edge_interval p)))) = itext sel.
 Proof.
   intros p sel Hp Hin.
-  destruct (every_path_tiles lookup lookup_len lookup_nil c Wc sel_len sel_syl p Hp) as (Hc & Hok).
+  destruct (every_path_tiles lookup lookup_len lookup_nil spell c Wc sel_len sel_syl has_word p Hp) as (Hc & Hok).
   exact (selection_is_displayed c Wc _ sel Hc Hok Hin).
 Qed.
 
 (* ... and for every segmentation accepted by the model's checker (the implementation's logged
    conversions in the correspondence check) *)
 Theorem C04_choice_is_displayed_validated : forall ivs sel, symbols c <> [] ->
-  valid_conversion lookup c ivs = true -> In sel (selections c) ->
+  valid_conversion spell lookup c ivs = true -> In sel (selections c) ->
   firstn (ie sel - ib sel) (skipn (ib sel) (display_of ivs)) = itext sel.
 Proof.
   intros ivs sel Hne Hv Hin.
-  destruct (valid_conversion_tiles lookup lookup_len lookup_nil c Wc sel_len sel_syl ivs Hne Hv) as (Hc & Hok).
+  destruct (valid_conversion_tiles lookup lookup_len lookup_nil spell c Wc sel_len sel_syl has_word ivs Hne Hv) as (Hc & Hok).
   exact (selection_is_displayed c Wc _ sel Hc Hok Hin).
 Qed.
 
 (* a break point set by the user is never spanned by a converted phrase *)
 Theorem C04_break_never_spanned : forall p iv k,
-  path_ok (find_intervals lookup c) 0 (clen c) p = true ->
+  path_ok (find_intervals spell lookup c) 0 (clen c) p = true ->
   In iv (glue_path c (map edge_interval p)) -> ib iv < k < ie iv -> comp_gap c k <> Some GBreak.
 Proof.
   intros p iv k Hp Hin Hk.
-  destruct (every_path_tiles lookup lookup_len lookup_nil c Wc sel_len sel_syl p Hp) as (_ & Hok).
+  destruct (every_path_tiles lookup lookup_len lookup_nil spell c Wc sel_len sel_syl has_word p Hp) as (_ & Hok).
   exact (no_interval_spans_break c _ iv k Hok Hin Hk).
 Qed.
 
